@@ -376,7 +376,20 @@ def rules(ctx: Ctx) -> None:
     cex = CE.methods["extract"]
     ctx.touched(cex)
     ccfg = flow(prog, cex).cfg
-    adds = [c.id for c in ccfg.nodes.values() if c.ast is not None and c.kind in ("stmt", "cond") and any(isinstance(k, ast.Call) and isinstance(k.func, ast.Attribute) and k.func.attr == "add_cte" for k in ast.walk(c.ast))]
+    def _registers(k: ast.AST) -> bool:
+        """the call registers a CTE on the holder: `.add_cte(..)` itself, or a helper of the same class / module that is handed the holder and calls it"""
+        if not isinstance(k, ast.Call):
+            return False
+        if isinstance(k.func, ast.Attribute) and k.func.attr == "add_cte":
+            return True
+        for cal in prog.resolve_call(k, cex):
+            if isinstance(cal, Fn) and cal is not cex and (cal.cls is CE or (cal.cls is None and cal.mod is cex.mod)) and cal.name != "extract_subquery":
+                if any(isinstance(x, ast.Call) and isinstance(x.func, ast.Attribute) and x.func.attr == "add_cte" for x in prog.walk_fn(cal)):
+                    ctx.touched(cal)
+                    return True
+        return False
+
+    adds = [c.id for c in ccfg.nodes.values() if c.ast is not None and c.kind in ("stmt", "cond") and any(_registers(k) for k in ast.walk(c.ast))]
     exts = [c.id for c in ccfg.nodes.values() if c.ast is not None and c.kind in ("stmt", "cond") and any(isinstance(k, ast.Call) and isinstance(k.func, ast.Attribute) and k.func.attr == "extract_subquery" for k in ast.walk(c.ast))]
     ok = bool(adds) and bool(exts) and not any(ccfg.reach(e, a) for e in exts for a in adds)
     ctx.ob("R01.8", "cte-names-registered-before-bodies-extracted", ok, cex.loc(),
